@@ -172,3 +172,19 @@ plan("C12", "exploration",
      "exact integer oracle (Hamming counts)",
      "runtime monitoring: exact sign-pattern oracle on codec paths and quantised distances + ASan/Miri on the codec",
      "DESIGN.md §3 C12, §4")
+
+MIRI_SEEDS_ENV = {"MIRIFLAGS": "-Zmiri-disable-isolation -Zmiri-deterministic-floats -Zmiri-many-seeds=0..48 -Zmiri-preemption-rate=0.2"}
+
+plan("C13", "exploration",
+     [explorer("C13"),
+      worker("stress", ["ids", "C13"]),
+      worker("tsan", ["explore", "C13", "--cases", "160"], build="tsan", tiers=("thorough",), env=TSAN_ENV, sanitizer="tsan", watchdog=(3600, 3600)),
+      worker("tsan-stress", ["ids", "C13", "--cases", "400"], build="tsan", tiers=("thorough",), env=TSAN_ENV, sanitizer="tsan", watchdog=(3600, 3600)),
+      worker("miri", ["ids", "C13", "--small", "1"], build="miri", shards=4, tiers=("thorough",), env=MIRI_SEEDS_ENV, sanitizer="miri", watchdog=(3600, 3600))],
+     ["interleavings are sampled (native stress with seeded noise, Miri's scheduler over 48 seeds with preemption), not enumerated",
+      "ThreadSanitizer only sees synchronisation it intercepts; LMDB's C code is not instrumented"],
+     "parallel tree updates never collide",
+     "In situ: id log of real multi-threaded builds (unique, disjoint from ids in use) + C01 walker, with seeded noise at hook points. Direct: stress of the exported id generator from 2-16 threads. Thorough: TSan on both, Miri many-seeds on the generator over every used subset of {0..4}.",
+     "hook exports ConcurrentNodeIds and logs ids; scheduling noise is add-only",
+     "runtime monitoring: offline exactly-once/disjointness check over the hooked id log, thread stress, TSan and Miri schedulers",
+     "DESIGN.md §3 C13, §4, §5")
